@@ -4,12 +4,14 @@ import (
 	"bytes"
 	"encoding/csv"
 	"fmt"
+	"io"
 	"math"
 	"os"
 	"path/filepath"
 	"reflect"
 	"strconv"
 	"strings"
+	"sync"
 	"time"
 
 	"github.com/cinar/indicator/v2/asset"
@@ -91,7 +93,7 @@ type rowNamed struct {
 	When time.Time `format:"2006-01-02"`
 }
 
-var hostileStrings = []string{`C:\u0026\data`, `a\u003cb\u003e`, `<b>&amp;</b>`, `back\nslash`, `\\`, `#N/A`, `#comment,with comma`, "", " ", "a,b", `say "hi"`, "  padded  ", "line\nbreak", "tab\there", "ünïcödé ✓", "\"", ",", "\n", "lone\rcr", "trailing,", "'single'", "0", "true", "#comment", "x\x00y", "\ufeffbom"}
+var hostileStrings = []string{"'=A1'", "'-3 on the day' said the desk", "'+x", "'@y", "=1+1", "-5", "+a", "@b", "''", "'", `C:\u0026\data`, `a\u003cb\u003e`, `<b>&amp;</b>`, `back\nslash`, `\\`, `#N/A`, `#comment,with comma`, "", " ", "a,b", `say "hi"`, "  padded  ", "line\nbreak", "tab\there", "ünïcödé ✓", "\"", ",", "\n", "lone\rcr", "trailing,", "'single'", "0", "true", "#comment", "x\x00y", "\ufeffbom"}
 
 var stringAlphabet = []rune("abcXYZ019 ,\"\n;:-_/\\é")
 
@@ -444,6 +446,55 @@ func csvPermuted(cc *run.Case) bool {
 		cc.Viol("", "Csv[rowAll]: the same codec value reading a second file with another column order: "+msg, map[string]any{"header1": hdr, "header2": hdr2})
 		return false
 	}
+	// ... a third file that LACKS some of the columns (their fields stay zero):
+	// the codec that has read the files above must read it exactly as a fresh
+	// codec does - nothing learnt from an earlier header may survive.
+	keep := []string{}
+	for _, h := range headers {
+		if r.Intn(3) > 0 {
+			keep = append(keep, h)
+		}
+	}
+	if pk := r.Perm(len(keep)); len(pk) > 0 {
+		shuffled := make([]string, len(keep))
+		for i, j := range pk {
+			shuffled[i] = keep[j]
+		}
+		keep = shuffled
+	}
+	var buf3 bytes.Buffer
+	w3 := csv.NewWriter(&buf3)
+	w3.Write(keep)
+	for _, row := range rows {
+		v := reflect.ValueOf(row).Elem()
+		rec := make([]string, len(keep))
+		for i, h := range keep {
+			f := v.Field(indexOf(headers, h))
+			switch f.Kind() {
+			case reflect.Struct:
+				format := helper.DefaultDateTimeFormat
+				if h == "D" {
+					format = "2006-01-02"
+				}
+				rec[i] = f.Interface().(time.Time).Format(format)
+			case reflect.Float32:
+				rec[i] = fmtFloat(f.Float(), 32)
+			case reflect.Float64:
+				rec[i] = fmtFloat(f.Float(), 64)
+			default:
+				rec[i] = fmt.Sprint(f.Interface())
+			}
+		}
+		w3.Write(rec)
+	}
+	w3.Flush()
+	fresh, _ := helper.NewCsv[rowAll](true)
+	want3 := helper.ChanToSlice(fresh.ReadFromReader(bytes.NewReader(buf3.Bytes())))
+	got3 := helper.ChanToSlice(c.ReadFromReader(bytes.NewReader(buf3.Bytes())))
+	if msg := sameRows(got3, want3); msg != "" {
+		cc.Viol("", "Csv[rowAll]: a codec value that has read other files reads a file with fewer columns differently from a fresh codec: "+msg, map[string]any{"header1": hdr, "header2": hdr2, "header3": keep, "file3": clipStr(buf3.String(), 500)})
+		return false
+	}
 	// ... and the same codec value, after having read files in other column
 	// orders, must still WRITE rows that a fresh codec reads back identically.
 	dir, err := os.MkdirTemp("", "verif-c11p-")
@@ -584,6 +635,45 @@ type jsonRow struct {
 	Flags []bool    `json:"flags"`
 }
 
+// jsonConcurrent runs several ChanToJSON -> io.Pipe -> JSONToChan round trips
+// at the same time (writers that block, as a network connection does): the
+// streams must not disturb each other.
+func jsonConcurrent[T any](cc *run.Case, xs []T, eq func(a, b T) bool) bool {
+	const streams = 6
+	got := make([][]T, streams)
+	errs := make([]error, streams)
+	var wg sync.WaitGroup
+	for k := 0; k < streams; k++ {
+		wg.Add(1)
+		go func(k int) {
+			defer wg.Done()
+			pr, pw := io.Pipe()
+			go func() {
+				errs[k] = helper.ChanToJSON(helper.SliceToChan(xs[k%3:]), pw)
+				pw.Close()
+			}()
+			got[k] = helper.ChanToSlice(helper.JSONToChan[T](pr))
+			io.Copy(io.Discard, pr)
+		}(k)
+	}
+	wg.Wait()
+	for k := 0; k < streams; k++ {
+		want := xs[k%3:]
+		if errs[k] != nil || len(got[k]) != len(want) {
+			cc.Viol("", fmt.Sprintf("%d concurrent JSON round trips through pipes: stream %d returned %d of %d values (error: %v)", streams, k, len(got[k]), len(want), errs[k]), nil)
+			return false
+		}
+		for i := range want {
+			if !eq(want[i], got[k][i]) {
+				cc.Viol("", fmt.Sprintf("%d concurrent JSON round trips through pipes: stream %d value %d was %v, came back as %v", streams, k, i, want[i], got[k][i]), nil)
+				return false
+			}
+		}
+	}
+	cc.Count("json_concurrent_streams", streams)
+	return true
+}
+
 func jsonRound[T any](cc *run.Case, what string, xs []T, eq func(a, b T) bool) bool {
 	var buf bytes.Buffer
 	if err := helper.ChanToJSON(helper.SliceToChan(xs), &buf); err != nil {
@@ -649,6 +739,9 @@ func c11JSON(cc *run.Case) bool {
 		jsonRound(cc, "map[string]any", maps, func(a, b map[string]any) bool { return reflect.DeepEqual(a, b) }) &&
 		jsonRound(cc, "int64 (long stream)", long, func(a, b int64) bool { return a == b }) &&
 		jsonRound(cc, "struct (long stream)", longRows, rowEq)) {
+		return false
+	}
+	if !jsonConcurrent(cc, longRows, rowEq) {
 		return false
 	}
 	return jsonRound(cc, "float64", fs, func(a, b float64) bool { return math.Float64bits(a) == math.Float64bits(b) }) &&
